@@ -1,3 +1,275 @@
 import Sheens.ES
+import Sheens.Proofs.EngineLemmas
 
-/-! Property C04 — theorems (in progress). -/
+/-!
+# Property C04 — a step follows the documented transition rule
+
+"Decision logic stated outright" over the model `step`/`consider`/`tryAll`/`tryBranch` of
+`core/step.go`, for all specs, states, pending messages and all action/guard *functions*.
+-/
+
+namespace Sheens.C04
+
+/-- Branches are tried in their listed order: the result is decided by the first branch that fires. -/
+theorem tryAll_first (bs : Option Bs) (against : V) (brs : List Branch) (t : State) :
+    tryAll bs against brs = .ok (some t) ↔
+      ∃ pre br post, brs = pre ++ br :: post ∧
+        (∀ b ∈ pre, tryBranch b bs against = .ok none) ∧ tryBranch br bs against = .ok (some t) := by
+  exact tryAll_eq_iff bs against brs _ (by simp)
+
+/-- No branch is taken iff every branch declines. -/
+theorem tryAll_none (bs : Option Bs) (against : V) (brs : List Branch) :
+    tryAll bs against brs = .ok none ↔ ∀ b ∈ brs, tryBranch b bs against = .ok none := by
+  induction brs with
+  | nil => simp [tryAll]
+  | cons b rest ih =>
+    constructor
+    · intro h
+      by_cases hb : tryBranch b bs against = .ok none
+      · rw [tryAll_cons_none rest hb] at h
+        intro x hx
+        rcases List.mem_cons.mp hx with hx | hx
+        · subst hx; exact hb
+        · exact ih.mp h x hx
+      · rw [tryAll_cons_ne rest hb] at h; exact absurd h hb
+    · intro h
+      rw [tryAll_cons_none rest (h b List.mem_cons_self)]
+      exact ih.mpr (fun x hx => h x (List.mem_cons_of_mem _ hx))
+
+/-- An error comes from the first branch that does not simply decline. -/
+theorem tryAll_error (bs : Option Bs) (against : V) (brs : List Branch) (e : StepErr) :
+    tryAll bs against brs = .error e ↔
+      ∃ pre br post, brs = pre ++ br :: post ∧
+        (∀ b ∈ pre, tryBranch b bs against = .ok none) ∧ tryBranch br bs against = .error e := by
+  exact tryAll_eq_iff bs against brs _ (by simp)
+
+
+/-- A branch without a guard fires iff its pattern (if any) yields exactly one candidate. -/
+theorem tryBranch_unguarded (b : Branch) (bs : Option Bs) (against : V) (hg : b.guard = none) :
+    tryBranch b bs against =
+      (match candidates b bs against with
+       | .error e => .error e
+       | .ok [] => .ok none
+       | .ok [none] => .ok none
+       | .ok [some c] => .ok (some { node := targetOf b c, bs := some c })
+       | .ok _ => .error .tooManyBindingss) := by
+  unfold tryBranch
+  generalize candidates b bs against = c
+  rcases c with e | (_ | ⟨(_ | c), (_ | ⟨d, l⟩)⟩) <;> simp only [hg]
+
+/-- A guarded branch fires with the bindings returned by the guard for the first candidate the
+    guard accepts (candidates from a pattern; all are non-nil). -/
+theorem tryBranch_guarded (b : Branch) (bs : Option Bs) (against : V) (g : ActionF) (p : V)
+    (cs : List Bs) (hg : b.guard = some g) (hp : b.pattern = some p)
+    (hc : matchTop p against (copyB bs) = .ok cs) :
+    tryBranch b bs against =
+      (match guardLoop g cs with
+       | .error e => .error e
+       | .ok none => .ok none
+       | .ok (some c) => .ok (some { node := targetOf b c, bs := some c })) := by
+  have hcand : candidates b bs against = .ok (cs.map some) := by
+    unfold candidates; simp only [hp, hc, matchErrOf]; rfl
+  have hfm : ∀ l : List Bs, (l.map some).filterMap id = l := by
+    intro l
+    induction l with
+    | nil => rfl
+    | cons c cs ih => simp
+  unfold tryBranch
+  simp only [hcand, hg]
+  rcases cs with _ | ⟨c, _ | ⟨d, l⟩⟩
+  · rfl
+  · simp only [List.map, List.filterMap_cons, id, List.filterMap_nil]
+    generalize guardLoop g _ = r; rcases r with e | (_ | c) <;> rfl
+  · simp only [List.map_cons, List.filterMap_cons, id]
+    rw [hfm l]
+    generalize guardLoop g _ = r; rcases r with e | (_ | c) <;> rfl
+
+/-- The guard loop returns the result for the first candidate whose guard returns bindings; a guard
+    error stops it. -/
+theorem guardLoop_first (g : ActionF) (cs : List Bs) (b : Bs) :
+    guardLoop g cs = .ok (some b) ↔
+      ∃ pre c post em, cs = pre ++ c :: post ∧
+        (∀ x ∈ pre, (execWrap g (some x)).err = none ∧
+            ∀ y em', (execWrap g (some x)).exe ≠ some (some y, em')) ∧
+        (execWrap g (some c)).err = none ∧ (execWrap g (some c)).exe = some (some b, em) := by
+  induction cs with
+  | nil =>
+    constructor
+    · intro h; simp [guardLoop] at h
+    · rintro ⟨pre, c, post, em, h, _⟩; simp at h
+  | cons c rest ih =>
+    simp only [guardLoop]
+    cases he : (execWrap g (some c)).err with
+    | some e =>
+      simp only
+      constructor
+      · intro h; cases h
+      · rintro ⟨pre, c', post, em, h1, h2, h3, h4⟩
+        cases pre with
+        | nil =>
+          simp only [List.nil_append, List.cons.injEq] at h1
+          obtain ⟨rfl, rfl⟩ := h1
+          rw [he] at h3; cases h3
+        | cons p pre' =>
+          simp only [List.cons_append, List.cons.injEq] at h1
+          obtain ⟨rfl, rfl⟩ := h1
+          have := (h2 c List.mem_cons_self).1
+          rw [he] at this; cases this
+    | none =>
+      simp only
+      split
+      · next b' em hx =>
+        constructor
+        · intro h
+          cases h
+          exact ⟨[], c, rest, em, rfl, fun x hx => (by cases hx), he, hx⟩
+        · rintro ⟨pre, c', post, em', h1, h2, h3, h4⟩
+          cases pre with
+          | nil =>
+            simp only [List.nil_append, List.cons.injEq] at h1
+            obtain ⟨rfl, rfl⟩ := h1
+            rw [hx] at h4; cases h4; rfl
+          | cons p pre' =>
+            simp only [List.cons_append, List.cons.injEq] at h1
+            obtain ⟨rfl, rfl⟩ := h1
+            exact absurd hx ((h2 c List.mem_cons_self).2 _ _)
+      · next hx =>
+        rw [ih]
+        constructor
+        · rintro ⟨pre, c', post, em, h1, h2, h3, h4⟩
+          refine ⟨c :: pre, c', post, em, by rw [h1]; rfl, ?_, h3, h4⟩
+          intro x hxm
+          rcases List.mem_cons.mp hxm with hxm | hxm
+          · subst hxm; exact ⟨he, fun y em' h => hx y em' h⟩
+          · exact h2 x hxm
+        · rintro ⟨pre, c', post, em, h1, h2, h3, h4⟩
+          cases pre with
+          | nil =>
+            simp only [List.nil_append, List.cons.injEq] at h1
+            obtain ⟨rfl, rfl⟩ := h1
+            exact absurd h4 (hx _ _)
+          | cons p pre' =>
+            simp only [List.cons_append, List.cons.injEq] at h1
+            obtain ⟨rfl, rfl⟩ := h1
+            exact ⟨pre', c', post, em, rfl, fun x hxm => h2 x (List.mem_cons_of_mem _ hxm), h3, h4⟩
+
+
+/-- Message branching consumes the pending message whether or not a branch is taken. -/
+theorem step_message_consumes (s : Spec) (st : State) (m : V) (n : Node) (br : Branches)
+    (hc : s.compiled = true) (hn : findNode st.node s.nodes = some n)
+    (ha : n.action = none) (hs : n.hasSource = false)
+    (hb : n.branches = some br) (ht : br.type = "message") :
+    ∃ sd, (step s st (some m)).stride = some sd ∧ sd.consumed = some m := by
+  rw [step_noaction s st _ n hc hn ha hs, stepRest_noaction _ _ _ _ _ ha, hb]
+  refine ⟨_, rfl, ?_⟩
+  simp only [consider_msg_some br st.bs m ht, if_true]
+
+/-- Message branching does nothing when there is no pending message. -/
+theorem step_message_idle (s : Spec) (st : State) (n : Node) (br : Branches)
+    (hc : s.compiled = true) (hn : findNode st.node s.nodes = some n)
+    (ha : n.action = none) (hs : n.hasSource = false)
+    (hb : n.branches = some br) (ht : br.type = "message") :
+    ∃ sd, (step s st none).stride = some sd ∧ sd.to = none ∧ sd.consumed = none ∧ sd.emitted = [] ∧
+      (step s st none).err = none := by
+  rw [step_noaction s st _ n hc hn ha hs, stepRest_noaction _ _ _ _ _ ha, hb,
+    consider_msg_none br st.bs ht]
+  exact ⟨_, rfl, rfl, rfl, rfl, rfl⟩
+
+/-- Bindings branching (and a node without branching) never consumes. -/
+theorem step_bindings_never_consumes (s : Spec) (st : State) (pending : Option V) (n : Node)
+    (hn : findNode st.node s.nodes = some n)
+    (hb : ∀ br, n.branches = some br → br.type ≠ "message") :
+    ∀ sd, (step s st pending).stride = some sd → sd.consumed = none := by
+  intro sd hsd
+  have key : ∀ bs em, (stepRest st n bs em pending).stride = some sd → sd.consumed = none := by
+    intro bs em h
+    obtain ⟨sd', h1, _, _, h4⟩ := stepRest_stride st n bs em pending
+    rw [h1] at h; cases h
+    rw [h4, consider_nonmsg n.branches bs pending hb]; rfl
+  cases step_cases s st pending with
+  | nostride h => rw [h] at hsd; cases hsd
+  | noaction n' hn' ha' h => rw [hn] at hn'; cases hn'; rw [h] at hsd; exact key _ _ hsd
+  | ok n' a' hn' ha' hm he' h => rw [hn] at hn'; cases hn'; rw [h] at hsd; exact key _ _ hsd
+  | errBranches n' a' e' hn' ha' hm he' h =>
+    rw [hn] at hn'; cases hn'; rw [h] at hsd; exact key _ _ hsd
+  | errNode n' a' e' hn' ha' hm he' h => rw [h] at hsd; cases hsd; rfl
+
+/-- Without an action the branches are considered against the current bindings, and the step's
+    target is exactly what `consider` decides. -/
+theorem step_no_action (s : Spec) (st : State) (pending : Option V) (n : Node)
+    (hc : s.compiled = true) (hn : findNode st.node s.nodes = some n)
+    (ha : n.action = none) (hs : n.hasSource = false) :
+    ∃ sd, (step s st pending).stride = some sd ∧ sd.emitted = [] ∧
+      sd.to = (consider n.branches st.bs pending).1.map stateCopy ∧
+      (step s st pending).err = (consider n.branches st.bs pending).2.2 := by
+  rw [step_noaction s st _ n hc hn ha hs, stepRest_noaction _ _ _ _ _ ha]
+  exact ⟨_, rfl, rfl, rfl, rfl⟩
+
+/-- The action runs first and the bindings it returns replace the current ones: the branches are
+    considered against the returned bindings `b'`; the step emits what the action emitted. -/
+theorem step_action_first (s : Spec) (st : State) (pending : Option V) (n : Node) (a : ActionF)
+    (b' : Bs) (em : List V)
+    (hc : s.compiled = true) (hn : findNode st.node s.nodes = some n) (ha : n.action = some a)
+    (hm : ∀ br, n.branches = some br → br.type ≠ "message")
+    (hx : (execWrap a st.bs).exe = some (some b', em)) (he : (execWrap a st.bs).err = none) :
+    ∃ sd, (step s st pending).stride = some sd ∧ sd.emitted = em ∧ sd.consumed = none ∧
+      (∀ t, (consider n.branches (some b') pending).1 = some t → sd.to = some (stateCopy t)) ∧
+      ((consider n.branches (some b') pending).1 = none →
+        ∃ eb, sd.to = some { node := "error", bs := some eb } ∧
+          lookup "error" eb = some (.str "Action node followed no branch") ∧
+          lookup "lastNode" eb = some (.str st.node)) := by
+  rw [step_action_ok s st pending n a hc hn ha hm he, stepRest_action _ _ _ _ _ a ha hm, hx]
+  refine ⟨_, rfl, rfl, rfl, ?_, ?_⟩
+  · intro t h
+    simp only [exeOut, h]
+  · intro h
+    simp only [exeOut, h]
+    refine ⟨_, rfl, ?_, ?_⟩
+    · unfold noBranchBs
+      rw [lookup_insertB_ne _ _ (by decide), lookup_insertB_ne _ _ (by decide), lookup_insertB_self]
+    · unfold noBranchBs
+      rw [lookup_insertB_ne _ _ (by decide), lookup_insertB_self]
+
+/-- An action failure with error branches: the branches are considered against the *given*
+    bindings extended by `actionError` and `error`. -/
+theorem step_error_branches (s : Spec) (st : State) (pending : Option V) (n : Node) (a : ActionF)
+    (e : String)
+    (hc : s.compiled = true) (hn : findNode st.node s.nodes = some n) (ha : n.action = some a)
+    (hm : ∀ br, n.branches = some br → br.type ≠ "message")
+    (he : (execWrap a st.bs).err = some e) (hb : s.actionErrorBranches = true) :
+    let eb := insertB "error" (.str e) (insertB "actionError" (.str e) (copyB st.bs))
+    ∃ sd, (step s st pending).stride = some sd ∧
+      (∀ t, (consider n.branches (some eb) pending).1 = some t → sd.to = some (stateCopy t)) := by
+  intro eb
+  rw [step_action_err_branches s st pending n a e hc hn ha hm he hb, stepRest_action _ _ _ _ _ a ha hm]
+  refine ⟨_, rfl, ?_⟩
+  intro t h
+  have h' : (consider n.branches (some (actErrBs e st.bs)) pending).1 = some t := h
+  simp only [h']
+
+/-- An action failure with a designated error node: the step goes there with the error bound. -/
+theorem step_error_node (s : Spec) (st : State) (pending : Option V) (n : Node) (a : ActionF)
+    (e : String)
+    (hc : s.compiled = true) (hn : findNode st.node s.nodes = some n) (ha : n.action = some a)
+    (hm : ∀ br, n.branches = some br → br.type ≠ "message")
+    (he : (execWrap a st.bs).err = some e) (hb : s.actionErrorBranches = false)
+    (ht : s.actionErrorNode ≠ "") :
+    ∃ sd, (step s st pending).stride = some sd ∧ (step s st pending).err = none ∧ sd.consumed = none ∧
+      sd.to = some { node := s.actionErrorNode,
+                     bs := some (insertB "error" (.str e) (insertB "actionError" (.str e) (copyB st.bs))) } := by
+  rw [step_action_err_node s st pending n a e hc hn ha hm he hb ht]
+  exact ⟨_, rfl, rfl, rfl, rfl⟩
+
+/-- An action failure with no error settings: the step returns the error (Walk then goes to the
+    error node, see C07). -/
+theorem step_error_returned (s : Spec) (st : State) (pending : Option V) (n : Node) (a : ActionF)
+    (e : String)
+    (hc : s.compiled = true) (hn : findNode st.node s.nodes = some n) (ha : n.action = some a)
+    (hm : ∀ br, n.branches = some br → br.type ≠ "message")
+    (he : (execWrap a st.bs).err = some e) (hb : s.actionErrorBranches = false)
+    (ht : s.actionErrorNode = "") :
+    (step s st pending).stride = none ∧ (step s st pending).err = some (.action e) := by
+  rw [step_action_err_ret s st pending n a e hc hn ha hm he hb ht]
+  exact ⟨rfl, rfl⟩
+
+end Sheens.C04
